@@ -855,6 +855,12 @@ func genScript(src *sim.Src) *script {
 		uris = []string{"file:///ws0/a.tm", "git:/ws0/a.tm?%7Bref%3AHEAD%7D", "vscode-vfs://github/ws0/a.tm", "vscode-vfs://gitlab/ws0/a.tm"}
 		nuris = 2 + src.Draw(3)
 	}
+	if src.Chance(1, 8) {
+		// documents that share a base name, differ only in letter case, or need percent
+		// escapes: distinct URIs (with distinct decoded paths) are distinct documents
+		uris = []string{"file:///ws0/a.tm", "file:///ws0/dir/a.tm", "file:///ws0/A.tm", "file:///ws0/dir%20x/a.tm", "file:///ws0/a.tm.tm"}
+		nuris = 2 + src.Draw(4)
+	}
 	add := func(o *op) {
 		o.build()
 		sc.ops = append(sc.ops, o)
